@@ -36,6 +36,8 @@ type StatusCase struct {
 	// Sibling != "": another entrypoint of the same application whose name extends "web" is in the
 	// middle of a deployment on every node (processing marker of 3)
 	Sibling string `json:"sibling,omitempty"`
+	// SiblingWorkloads > 0: that sibling entrypoint also has this many workloads recorded (deployed before)
+	SiblingWorkloads int `json:"sibling_workloads,omitempty"`
 }
 
 func genC13(t *rapid.T) StatusCase {
@@ -58,6 +60,9 @@ func genC13(t *rapid.T) StatusCase {
 	}
 	if vt.Chance(t, "sibling", 35) {
 		c.Sibling = rapid.SampledFrom([]string{"2", "-api", ".v2", "web"}).Draw(t, "sibling")
+		if vt.Chance(t, "siblingWorkloads", 60) {
+			c.SiblingWorkloads = rapid.IntRange(1, 3).Draw(t, "nSiblingWorkloads")
+		}
 	}
 	return c
 }
@@ -129,6 +134,14 @@ func runC13(x *vt.Ctx, c StatusCase) *vt.Finding {
 		return vt.Failf("harness:list", "%v", err)
 	}
 
+	if c.Sibling != "" && c.SiblingWorkloads > 0 {
+		sd := c.Prior
+		sd.Entry, sd.Count, sd.Strategy, sd.Limit = "web"+c.Sibling, c.SiblingWorkloads, "AUTO", 0
+		if out := runOp(w, Op{Kind: "create", Deploy: &sd}); len(out.Created) > 0 {
+			x.Label("sibling-entrypoint-has-workloads")
+		}
+		settle(w)
+	}
 	if c.Sibling != "" {
 		x.Label("sibling-entrypoint-deploying")
 		for _, n := range c.Setup.Nodes {
